@@ -205,3 +205,28 @@ package lang
 //@   requires held(m.mutex)
 //@ func (*methods).get [C32]
 //@   requires held(m.mutex)
+
+// ---- C21: exit status of external commands (lang/exec.go) ------------------------------------------------
+//
+// $childFailed: the child was waited for and did not exit with status 0 (non-zero status or killed
+// by a signal). The property: such a child never comes back as "no error and exit number 0".
+//@ type Process ghost childFailed bool
+
+//@ func execFork [C21]
+//@   scope functional
+//@   requires p != nil
+//@   ghost at return: p.$childFailed = cmd.$waited && !(cmd.$exited && cmd.$status == 0)
+//@   ensures imp(p.$childFailed, result != nil || p.ExitNum != 0)
+//@   ensures imp(cmd.$waited && cmd.$exited && cmd.$status != 0, result != nil)
+//@   ensures imp(cmd.$waited && cmd.$exited && cmd.$status == 0, result == nil)
+
+//@ func execute [C21]
+//@   scope functional
+//@   requires p != nil
+//@   ensures imp(p.$childFailed, result != nil || p.ExitNum != 0)
+
+// External copies the system process's exit code exactly when the command failed.
+//@ func External [C21 C19]
+//@   requires p != nil && p.SystemProcess != nil
+//@   ensures imp(result != nil, p.ExitNum == $sysExit(p.SystemProcess))
+//@   ensures imp(p.$childFailed, result != nil || p.ExitNum != 0)
